@@ -10,7 +10,7 @@ def funcs_of(prog, files=None, names=None):
     for f in prog.functions.values():
         if f.nocfg:
             continue
-        if files is not None and f.file not in files:
+        if files and f.file not in files:
             continue
         if names is not None and f.name not in names and f.qn not in names:
             continue
@@ -526,36 +526,60 @@ def run_progress(prog, ctx=None):
     return res
 
 
+def tested_pointers(f):
+    """local/param pointers the function tests for null somewhere: id -> name"""
+    tested = {}
+    for bid, b in f.blocks.items():
+        if b.term and b.term.get("cond") is not None:
+            c = b.term["cond"]
+            dc = strip(c, all_casts=True)
+            while dc.get("k") == "bin" and dc.get("op") in ("&&", "||"):
+                dc = strip(dc["b"], all_casts=True)
+            if dc.get("k") == "bin" and dc.get("op") == "=":
+                dc = strip(dc["a"], lvalue_to_rvalue=False)
+            if dc.get("k") == "ref" and "id" in dc["d"] and f.T(dc.get("t")).get("k") == "ptr":
+                tested[dc["d"]["id"]] = dc["d"]["n"]
+            for n in walk(c):
+                x = None
+                if n.get("k") == "un" and n.get("op") == "!":
+                    x = strip(n["e"], all_casts=True)
+                elif n.get("k") == "cast" and n.get("ck") == "PointerToBoolean":
+                    x = strip(n["e"], all_casts=True)
+                elif n.get("k") == "bin" and n.get("op") in ("==", "!=") and cval(n["b"]) == 0:
+                    x = strip(n["a"], all_casts=True)
+                if x is not None:
+                    if x.get("k") == "bin" and x.get("op") == "=":
+                        x = strip(x["a"], lvalue_to_rvalue=False)
+                    if x.get("k") == "ref" and "id" in x["d"] and f.T(x.get("t")).get("k") == "ptr":
+                        tested[x["d"]["id"]] = x["d"]["n"]
+    return tested
+
+
+def null_partitioned(prog, f, summaries=None):
+    """interval analysis of f with one trace partition per outcome of its own null tests"""
+    tv = sorted(tested_pointers(f))
+    PK = Analysis.PK
+
+    def nullkey(an, st):
+        k = []
+        for vid in tv:
+            v = st.get(("v", vid))
+            k.append("?" if v is None else ("N" if (v.lo == 0 and v.hi == 0) else ("P" if v.lo > 0 else "?")))
+        st[PK] = "".join(k)
+
+    an = Analysis(prog, f, summaries=summaries, hook=lambda an, b, i, el, st: nullkey(an, st), edge_hook=lambda an, b, c, t, st: nullkey(an, st))
+    st0 = an.entry_state()
+    nullkey(an, st0)
+    an.run(state=st0)
+    return an
+
+
 def run_nullcontra(prog, ctx=None):
     """NULLCONTRA (Engler): a pointer the function itself tests for null is not dereferenced where that test has not established non-null"""
     res = Result("NULLCONTRA")
     files = set(ctx.get("files", [])) if ctx else None
     for f in funcs_of(prog, files):
-        # pointers with a null test somewhere in the function
-        tested = {}
-        for bid, b in f.blocks.items():
-            if b.term and b.term.get("cond") is not None:
-                c = b.term["cond"]
-                dc = strip(c, all_casts=True)
-                while dc.get("k") == "bin" and dc.get("op") in ("&&", "||"):
-                    dc = strip(dc["b"], all_casts=True)
-                if dc.get("k") == "bin" and dc.get("op") == "=":
-                    dc = strip(dc["a"], lvalue_to_rvalue=False)
-                if dc.get("k") == "ref" and "id" in dc["d"] and f.T(dc.get("t")).get("k") == "ptr":
-                    tested[dc["d"]["id"]] = dc["d"]["n"]      # bare pointer used as a condition (C has no bool conversion node)
-                for n in walk(c):
-                    x = None
-                    if n.get("k") == "un" and n.get("op") == "!":
-                        x = strip(n["e"], all_casts=True)
-                    elif n.get("k") == "cast" and n.get("ck") == "PointerToBoolean":
-                        x = strip(n["e"], all_casts=True)
-                    elif n.get("k") == "bin" and n.get("op") in ("==", "!=") and cval(n["b"]) == 0:
-                        x = strip(n["a"], all_casts=True)
-                    if x is not None:
-                        if x.get("k") == "bin" and x.get("op") == "=":
-                            x = strip(x["a"], lvalue_to_rvalue=False)
-                        if x.get("k") == "ref" and "id" in x["d"] and f.T(x.get("t")).get("k") == "ptr":
-                            tested[x["d"]["id"]] = x["d"]["n"]
+        tested = tested_pointers(f)
         if not tested:
             continue
         PK = Analysis.PK
@@ -595,6 +619,17 @@ def run_nullcontra(prog, ctx=None):
                     p = n["b"]
                 elif n.get("k") == "idx":
                     p = n["a"]
+                elif n.get("k") == "call" and callee_name(n) in ("memcpy", "memmove", "strlen", "strcmp", "strcpy", "memcmp") and n.get("args"):
+                    # library functions that read through their pointer arguments (a zero length does not make NULL valid for memcpy)
+                    for a in n["args"][:2]:
+                        a_ = strip(a, all_casts=True)
+                        if a_.get("k") == "ref" and a_["d"].get("id") in tested and f.T(a_.get("t")).get("k") == "ptr":
+                            lenarg = n["args"][2] if len(n["args"]) > 2 else None
+                            zero_ok = False
+                            if lenarg is not None:
+                                zero_ok = all((an.ev(lenarg, dict(st), True, el).hi == 0) for st in parts.values())
+                            if not zero_ok:
+                                p = a
                 if p is None:
                     continue
                 ps = strip(p, all_casts=True)
@@ -873,6 +908,19 @@ def run_allocpolarity(prog, ctx=None):
                         tgt = ("m", norm(show(l, f)), norm(show(l, f)))
                     if tgt:
                         cands.setdefault(tgt, []).append((n, g))
+        # results tested directly:  if (src && mpt_identifier_copy(c, src)) return error;
+        for bid, blk in f.blocks.items():
+            if not blk.term or blk.term.get("cond") is None:
+                continue
+            c = strip(blk.term["cond"], all_casts=True)
+            while c.get("k") == "bin" and c.get("op") in ("&&", "||"):
+                c = strip(c["b"], all_casts=True)
+            while c.get("k") == "un" and c.get("op") == "!":
+                c = strip(c["e"], all_casts=True)
+            if c.get("k") == "call" and c.get("fn", {}).get("inroot") and f.T(c.get("t")).get("k") == "ptr":
+                cs = prog.resolve_call(f, c)
+                if cs and not cs[0].nocfg and any(e.get("k") == "ret" and e.get("e") is not None and cval(e["e"]) == 0 for bb, ii, e in cs[0].elements()):
+                    cands.setdefault(("m", "call@%s:%s" % (c.get("l"), norm(show(c, f))), ""), []).append((c, cs[0]))
         for tgt, sites in cands.items():
             if tgt[0] != "v":
                 # member targets (cpy->children = clone()): evaluate through a synthetic key on the assignment expression value
@@ -930,4 +978,48 @@ def run_allocpolarity(prog, ctx=None):
                 res.ob(key, not bad, f, n.get("l", 0),
                        "" if not bad else "when %s() succeeds every return of %s is a failure, when it fails %s can still succeed: the test of its result is inverted" % (g.qn, f.qn, f.qn),
                        {"returns_when_nonnull": sorted(cls["P"]), "returns_when_null": sorted(cls["N"])})
+    return res
+
+
+def run_usednotsize(prog, ctx=None):
+    """USEDNOTSIZE: element counts of a typed buffer come from its used length, never from its capacity (_size)"""
+    res = Result("USEDNOTSIZE")
+    files = set(ctx.get("files", [])) if ctx else None
+    for f in funcs_of(prog, files):
+        for b, i, e in f.elements():
+            for n in walk_own(e):
+                if n.get("k") == "bin" and n.get("op") in ("/", "%") and cval(n["b"]) is not None:
+                    a = strip(n["a"], all_casts=True)
+                    if a.get("k") == "mem" and a.get("rec", "").split("::")[-1] in ("mpt_buffer", "buffer") and a.get("f") in ("_size", "_used"):
+                        ok = a["f"] == "_used"
+                        res.ob("%s:%s" % (f.qn, norm(show(n, f))[:60]), ok, f, n.get("l", 0),
+                               "" if ok else "element count taken from the buffer capacity (_size): slots beyond _used were never constructed")
+    return res
+
+
+def run_bufmix(prog, ctx=None):
+    """BUFMIX: a buffer-level mutator is not given a length read from another buffer's _used field"""
+    res = Result("BUFMIX")
+    files = set(ctx.get("files", [])) if ctx else None
+    for f in funcs_of(prog, files):
+        for b, i, e in f.elements():
+            if e.get("k") == "call" and callee_name(e) in ("mpt_buffer_cut", "mpt_buffer_insert", "mpt_buffer_set") and e.get("args"):
+                tgt = norm(show(strip(e["args"][0], all_casts=True), f))
+                others = set()
+                for a in e["args"][1:]:
+                    for n in walk(a):
+                        if n.get("k") == "mem" and n.get("f") == "_used" and n.get("rec", "").split("::")[-1] in ("mpt_buffer", "buffer"):
+                            others.add(norm(show(n["b"], f)))
+                if not others:
+                    continue
+                # copying *from* another buffer legitimately uses that buffer's used length
+                if callee_name(e) == "mpt_buffer_set" and len(e["args"]) > 3:
+                    from .rules_effect import root_of
+                    dn = strip(e["args"][3], all_casts=True)
+                    for n in walk(e["args"][3]):
+                        if n.get("k") == "ref":
+                            others.discard(n["d"]["n"])
+                ok = others <= {tgt}
+                res.ob("%s:%s" % (f.qn, norm(show(e, f))[:70]), ok, f, e.get("l", 0),
+                       "" if ok else "%s() works on %s but its length is the used size of %s" % (callee_name(e), tgt, ", ".join(sorted(others - {tgt}))))
     return res
